@@ -11,10 +11,9 @@
 
    Left at correspondence level (no theorem): tojson|fromjson, tostring|tonumber on finite numbers
    (number printing/parsing is strconv's and C12's business), todate|fromdate (strftime/strptime live
-   in timefmt-go, outside /repo), [paths] == [path(..)] without the root (that IS the builtin.jq
-   definition of paths). *)
+   in timefmt-go, outside /repo; see C13_todate_fromdate for the modelled version). *)
 From Coq Require Import List ZArith NArith Bool.
-From Verif Require Import c13.Utf8 c13.Utf8Proofs c13.Utf8Valid c13.Codec c13.CodecProofs c13.Jv c13.JvProofs c13.Time c13.TimeProofs.
+From Verif Require Import c13.Utf8 c13.Utf8Proofs c13.Utf8Valid c13.Codec c13.CodecProofs c13.Jv c13.JvProofs c13.Time c13.TimeProofs c13.Date c13.DateProofs.
 Import ListNotations.
 
 (* explode | implode on every well-formed UTF-8 string (the strings of the JSON data model) *)
@@ -67,6 +66,17 @@ Theorem C13_getpath_setpath_id : forall v p, wf v -> In p (paths v) ->
 Proof. exact update_getpath_id. Qed.
 Print Assumptions C13_getpath_setpath_id.
 
+(* [paths] equals [path(..)] without the root, for every value: [path_dotdot] transcribes the recurse
+   enumeration (current path, then each child's recursion; object keys in sorted order, as gojq
+   iterates), [paths_jq] is literally `path(..) | select(. != [])` *)
+Theorem C13_path_dotdot : forall v, path_dotdot v = [] :: paths v.
+Proof. exact path_dotdot_paths. Qed.
+Print Assumptions C13_path_dotdot.
+
+Theorem C13_paths_jq : forall v, paths_jq v = tl (path_dotdot v).
+Proof. exact paths_jq_tl. Qed.
+Print Assumptions C13_paths_jq.
+
 Theorem C13_to_from_entries : forall m, wf (JObj m) -> bind (to_entries (JObj m)) from_entries = ROk (JObj m).
 Proof. exact to_from_entries. Qed.
 Print Assumptions C13_to_from_entries.
@@ -96,6 +106,14 @@ Theorem C13_gmtime_mktime : forall t, (year_1 <= t <= year_9999_end)%Z ->
   bind (gmtime t) mktime = ROk (JFlt (f64_of_Z t)).
 Proof. exact gmtime_mktime. Qed.
 Print Assumptions C13_gmtime_mktime.
+
+(* todate | fromdate on whole seconds within years 1..9999, EXCLUDING the zero time 0001-01-01T00:00:00Z
+   (t = -62135596800), on which funcStrptime reports a parse failure: the known finding of this property.
+   timefmt-go's Format/Parse for "%Y-%m-%dT%H:%M:%S%z" are modelled (c13/Date.v), not verified. *)
+Theorem C13_todate_fromdate : forall t, (year_1 <= t <= year_9999_end)%Z -> t <> year_1 ->
+  todate_fromdate t = ROk (JFlt (f64_of_Z t)).
+Proof. exact todate_fromdate_roundtrip. Qed.
+Print Assumptions C13_todate_fromdate.
 
 (* the arithmetic core holds from the absolute epoch of package time onwards *)
 Theorem C13_unix_of_civil : forall t, (0 <= t + unix_to_absolute)%Z ->
